@@ -3,6 +3,7 @@ package aggregator
 import (
 	"fmt"
 	"reflect"
+	"strconv"
 	"strings"
 	"sync"
 
@@ -13,13 +14,22 @@ import (
 
 // nullGroupKeyMarker is the group-key segment for a missing/nil group field
 // (e.g. a LEFT JOIN row with no match). Rows sharing it collapse into one NULL
-// group; GetResults maps it back to nil. The \x00 byte avoids collisions with
-// realistic field values.
+// group; GetResults maps it back to nil. Value segments start with their decimal
+// length (see groupKeySegment), so no value - not even the string "\x00NULL" -
+// can produce this segment.
 const nullGroupKeyMarker = "\x00NULL"
 
 // groupKeySep 分隔分组键各字段。\x1f（单元分隔符）在真实数据中极少出现，避免字段值含
 // 分隔符导致的键碰撞（曾用 "|"：含 "|" 的值会被还原阶段截断、多字段还会错位）。
 const groupKeySep = "\x1f"
+
+// groupKeySegment encodes one non-NULL group value as "<len>:<text>" + groupKeySep.
+// The length prefix makes the key a prefix code: a value that itself contains
+// groupKeySep (or looks like nullGroupKeyMarker) cannot shift bytes across the
+// column border, so distinct value tuples never share a key.
+func groupKeySegment(text string) string {
+	return strconv.Itoa(len(text)) + ":" + text + groupKeySep
+}
 
 // Aggregator aggregator interface
 type Aggregator interface {
@@ -219,9 +229,9 @@ func (ga *GroupAggregator) Add(data any) error {
 		}
 
 		if str, ok := fieldVal.(string); ok {
-			key += str + groupKeySep
+			key += groupKeySegment(str)
 		} else {
-			key += fmt.Sprintf("%v", fieldVal) + groupKeySep
+			key += groupKeySegment(fmt.Sprintf("%v", fieldVal))
 		}
 		keyVals = append(keyVals, fieldVal)
 	}
